@@ -91,6 +91,10 @@ func trimToDirectory(prefix string, paths []string) string {
 // to repeated `LoadSource` calls.
 // It also returns the common (root) directory for all the files.
 func LoadSources(sourceFiles []string) ([]*packages.Package, string, error) {
+	if len(sourceFiles) == 0 {
+		return nil, "", fmt.Errorf("no source file to load")
+	}
+
 	patterns := make([]string, len(sourceFiles))
 	dirs := make([]string, len(sourceFiles))
 
